@@ -167,7 +167,7 @@ def check_session(run, scn, actor=0, model=None, relaxed_from=None):
             continue
         if exp[0] == 'push':
             # did the device answer FAIL during this call? (ground truth, not a re-derivation of the chunking)
-            failed = [a for a in dev.push_attempts if rec['t0'] <= a['t0'] <= rec.get('t1', rec['t0']) and a.get('fail') is not None]
+            failed = [a for a in dev.push_attempts if rec['t0'] <= a['t0'] <= rec.get('t1', rec['t0']) and a.get('fail') is not None and (len(run.results) <= 1 or dev.all_streams[a['stream']].opener == actor)]
             if failed:
                 exp = ('pushfail', bytes(failed[0]['fail']))
         if not rec['ok']:
@@ -219,7 +219,7 @@ def check_session(run, scn, actor=0, model=None, relaxed_from=None):
             probs.append(P('missing-exception', '%s returned normally although the device answered FAIL(%r)' % (where, exp[1][:40])))
         elif exp[0] == 'push':
             m.note_push(op, rec)
-            probs += check_push(run, op, rec, where)
+            probs += check_push(run, op, rec, where, actor if len(run.results) > 1 else None)
     return probs
 
 
@@ -227,12 +227,12 @@ def _sp(path):
     return path if len(path) <= 48 else path[:20] + '...(%d chars)...' % len(path) + path[-12:]
 
 
-def check_push(run, op, rec, where):
+def check_push(run, op, rec, where, actor=None):
     """C07: what the device's sync service decoded vs. the source."""
     probs = []
     dev = run.device
     t0, t1 = rec['t0'], rec['t1']
-    mine = [p for p in dev.push_attempts if p['t0'] >= t0 and p['t0'] <= t1]
+    mine = [p for p in dev.push_attempts if p['t0'] >= t0 and p['t0'] <= t1 and (actor is None or dev.all_streams[p['stream']].opener == actor)]
     if op.get('src') == 'dir':
         want = {op['path'] + '/' + n: d for n, d in rec.get('src_files', {}).items()}
     else:
